@@ -145,6 +145,12 @@ async fn run_async(w: &World, c: &Value) -> Value {
     let view = cluster_view(&addr).await.unwrap_or(json!({}));
     let mut out = json!({"members_up": members_up(&view), "ready": h.state().tables_loaded()});
     if c["kind"] == "ticket" {
+        let t = &c["ticket"];
+        if (t["form"] == "json" || t["form"] == "nomode") && t["sql"].is_string() {
+            let mode = t["mode"].as_str().map(|m| if m == "off" { "0" } else { m });
+            out["http"] = http_side(&addr, t["sql"].as_str().unwrap_or(""), mode).await;
+            if let Some(h) = out["http"].as_object_mut() { h.remove("rows"); }
+        }
         match do_get(&mut client, ticket_bytes(&c["ticket"])).await {
             Ok(d) => { out["doget"] = json!("ok"); out["rows_total"] = json!(d["msgs"].as_array().map(|a| a.iter().filter_map(|x| x.as_u64()).sum::<u64>())); out["meta"] = d["meta"].clone(); }
             Err(e) => out["doget"] = e,
